@@ -150,7 +150,7 @@ func rulesAccess(c *Ctx) {
 		if !strings.Contains(tn, "verifCtl") {
 			nReal++
 		}
-		c.ruleA1A3(f, tn)
+		c.ruleA1A3(c.effectiveBody(f), tn)
 	}
 	c.floor("A1", "access-controller implementations (CanAppend)", nReal, 3)
 	c.ruleA2()
@@ -165,6 +165,57 @@ func acceptReturn(in ssa.Instruction) bool {
 		return false
 	}
 	return !isFailureReturn(r)
+}
+
+// effectiveBody: when all f does is return what a repo helper returns from running a function
+// literal f hands to it ("run this with the list, under the lock"), the literal is the body
+// to judge.
+func (c *Ctx) effectiveBody(f *ssa.Function) *ssa.Function {
+	var lit *ssa.Function
+	n := 0
+	eachInstr(f, func(in ssa.Instruction) {
+		r, ok := in.(*ssa.Return)
+		if !ok || len(r.Results) == 0 {
+			return
+		}
+		n++
+		for _, v := range resolveSpill(r.Results[len(r.Results)-1]) {
+			call, ok := v.(*ssa.Call)
+			if !ok {
+				continue
+			}
+			w := call.Call.StaticCallee()
+			if w == nil || w.Blocks == nil || w.Pkg == nil || !inRepo(w.Pkg.Pkg) {
+				continue
+			}
+			for i, a := range call.Call.Args {
+				mc, ok := a.(*ssa.MakeClosure)
+				if !ok || i >= len(w.Params) || !c.mustCallParam(w, w.Params[i]) {
+					continue
+				}
+				// the helper hands back what the literal returned
+				passes := false
+				eachInstr(w, func(x ssa.Instruction) {
+					wr, ok := x.(*ssa.Return)
+					if !ok || len(wr.Results) == 0 {
+						return
+					}
+					for _, rv := range resolveSpill(wr.Results[len(wr.Results)-1]) {
+						if pc, ok := rv.(*ssa.Call); ok && pc.Call.Value == ssa.Value(w.Params[i]) {
+							passes = true
+						}
+					}
+				})
+				if g, ok := mc.Fn.(*ssa.Function); ok && passes {
+					lit = g
+				}
+			}
+		}
+	})
+	if lit != nil && n == 1 {
+		return lit
+	}
+	return f
 }
 
 type memberTest struct {
@@ -743,7 +794,25 @@ func (c *Ctx) ruleA4() {
 			}
 			ac := c.litField(opts, "AccessController")
 			cons := fk + "→StoreConstructor#access-controller"
-			if ac != nil && (d[ac] || d[strip(ac)]) {
+			// the resolved controller may travel in a field of a small struct the steps of this
+			// function hand to each other: stored into the field here, read from it where the
+			// options are built
+			viaField := false
+			if u, ok := strip(ac).(*ssa.UnOp); ac != nil && ok && u.Op == token.MUL {
+				if fa, ok := u.X.(*ssa.FieldAddr); ok {
+					want := fieldVarOf(fa)
+					eachInstr(f, func(in ssa.Instruction) {
+						st, ok := in.(*ssa.Store)
+						if !ok || !d[st.Val] {
+							return
+						}
+						if fa2, ok := st.Addr.(*ssa.FieldAddr); ok && want != nil && fieldVarOf(fa2) == want {
+							viaField = true
+						}
+					})
+				}
+			}
+			if ac != nil && (d[ac] || d[strip(ac)] || viaField) {
 				c.ok("A4", cons, call.Pos(), "the store receives the controller resolved from the manifest's access-controller address")
 			} else {
 				c.bad("A4", cons, call.Pos(), "the access controller handed to the store constructor does not come from acutils.Resolve on the manifest's address: a caller (or nothing at all) decides who may write")
@@ -878,11 +947,11 @@ func (c *Ctx) litField(v ssa.Value, name string) ssa.Value {
 	if v == nil {
 		return nil
 	}
-	if fv, ok := structLitFields(v)[name]; ok {
-		return fv
-	}
 	call, ok := v.(*ssa.Call)
 	if !ok {
+		if fv, ok := structLitFields(v)[name]; ok {
+			return fv
+		}
 		return nil
 	}
 	h := call.Call.StaticCallee()
@@ -1324,6 +1393,37 @@ func (c *Ctx) ruleN4(impls []*types.Named) {
 			}
 			if !sigOK {
 				missing = append(missing, "no dominating nil test of its identity's signatures")
+			}
+			if len(missing) > 0 {
+				// the checks may have been made by every caller before handing the entry over
+				if pe, ok := ent.(*ssa.Parameter); ok {
+					idx := -1
+					for i, q := range f.Params {
+						if q == pe {
+							idx = i
+						}
+					}
+					sites, okAll := 0, true
+					for _, g := range c.RepoFns {
+						if c.isTestFile(g.Pos()) || idx < 0 {
+							continue
+						}
+						eachCall(g, func(cs ssa.CallInstruction) {
+							if cs.Common().StaticCallee() != f || idx >= len(cs.Common().Args) {
+								return
+							}
+							sites++
+							an := nf(strip(cs.Common().Args[idx]))
+							cf := c.entryFacts(cs.Block(), 0)
+							if !cf["defined("+an+")"] || !cf["sig("+an+")"] {
+								okAll = false
+							}
+						})
+					}
+					if sites > 0 && okAll {
+						missing = nil
+					}
+				}
 			}
 			if len(missing) == 0 {
 				c.ok("N4", cons, call.Pos(), "the received entry is only re-encoded after its clock and identity signatures were found present")
